@@ -5,13 +5,14 @@ little-endian bytes.
             B:all-proper-prefixes-fail K:decode(le++junk):remaining==3
             T:to_le T:to_be T:to_ne V:from_le V:from_be V:from_ne V:from_bits
             T:json K:from_json T:serialize-call-trace T:wrapping-call-trace K:from_json_seq T:wrapping_json K:wrapping_from_json
+            T:calls-made-on-a-non-self-describing-deserializer K:from_field_seq K:wrapping_from_field_seq
 """
 from common import Stats, lay, opclass, panic_text, unhex
 
 NAMES = ("encode", "using_encoded", "encode_to", "tuple_embedding", "encoded_size", "max_encoded_len", "bits_encode", "decode", "short_input_fails", "decode_with_trailing",
          "to_le_bytes", "to_be_bytes", "to_ne_bytes", "from_le_bytes", "from_be_bytes", "from_ne_bytes", "from_bits",
          "serde_json", "serde_from_json", "serde_call_trace", "wrapping_serde_call_trace", "serde_from_seq",
-         "wrapping_serde_json", "wrapping_serde_from_json")
+         "wrapping_serde_json", "wrapping_serde_from_json", "serde_fieldseq_calls", "serde_from_fieldseq", "wrapping_serde_from_fieldseq")
 
 
 class Mon(object):
@@ -34,7 +35,7 @@ class Mon(object):
         ah = "%x" % a
         exp = ["T:" + le, "T:" + le, "T:" + le, "T:" + le + "07", "V:%x" % nb, "V:%x" % nb, "T:" + le, "K:" + ah, "B:1", "K:%s:1" % ah,
                "T:" + le, "T:" + be, "T:" + le, "V:" + ah, "V:" + ah, "V:" + ah, "V:" + ah,
-               "T:" + js, "K:" + ah, None, None, "K:" + ah, "T:" + js, "K:" + ah]
+               "T:" + js, "K:" + ah, None, None, "K:" + ah, "T:" + js, "K:" + ah, "INFO", "K:" + ah, "K:" + ah]
         if len(outs) != len(exp):
             # a group collapsed to one panic token shifts positions: report it as such
             for t in outs:
@@ -44,6 +45,12 @@ class Mon(object):
             raise ValueError("token count %d" % len(outs))
         for name, e, t in zip(NAMES, exp, outs):
             st.checks += 1
+            if e == "INFO":
+                # the calls Deserialize made on the non-self-describing deserializer: shown in the witness, judged by the
+                # two outcome tokens that follow (the value must come back; which struct-like hint is used is free)
+                if t[0] == "P":
+                    st.violation("C10:%s:panic:%s" % (name, L.family()), line, "panicked: %s" % panic_text(t))
+                continue
             if e is None:
                 # recorded Serializer calls: a one-field struct (declared length 1) whose field `bits` is the integer;
                 # the struct's name is not pinned down by the property
